@@ -12,7 +12,7 @@ CLAUSES = {
     "runs-equal": "the three spellings of one runnable set-up (YAML with anchors/aliases for repeated encodings, TOML, legacy v1) produce the same output file: dimensions, variables, storage types, attributes and every value",
     "optional-sections": "omitted optional sections (state, ibm, warm_start, grid) behave as empty ones",
 }
-BOUNDS = {"quick": "(runs-equal: 3-step runs on a 6x6 ROMS grid, 2 release rows with symbolic depth/weight, discrete or continuous, plain or wildcard forcing name, YAML with aliases) all 128 combinations of 7 presence flags (grid section, subgrid, reference time, continuous release, ibm section, particle variables, wildcard forcing name); every leaf a unique token",
+BOUNDS = {"quick": "(runs-equal: 3-step runs on a 6x6 ROMS grid, 2 release rows with symbolic depth/weight, discrete or continuous, plain or wildcard forcing name, YAML with aliases) all 128 combinations of 7 presence flags (grid section, subgrid, reference time, continuous release, ibm section, particle variables, wildcard forcing name); every leaf a unique token; one scenario with a warm start file named in each spelling (version 1: files.warm_start_file)",
           "thorough": "same plus extra_forcing and diffusion flags (512 combinations)"}
 ASSUMES = ["equality of the three runs follows from equal constructor arguments and determinism (C14) for the 128 flag combinations — argued; one runnable set-up (scenario runs-equal) is really run in the three spellings and the files compared",
            "the v1 vocabulary the docstring of configure_v1 supports ('ordinary use cases'): warm_start and ladim1-only keys are not exercised"]
